@@ -66,8 +66,8 @@ static void objShiftPtrs(void* obj, ptrdiff_t diff)
 		if ((octet*)obj <= objPtr(obj, i, octet) + diff && 
 			objPtr(obj, i, octet) + diff < objEnd(obj, octet))
 		{
-			objShiftPtrs(objPtr(obj, i, void), diff);
 			objPtr(obj, i, octet) += diff;
+			objShiftPtrs(objPtr(obj, i, void), diff);
 		}
 	// просмотреть оставшиеся указатели
 	for (; i < objPCount(obj); ++i)
